@@ -116,6 +116,46 @@ claim('C20',
                     'Known finding F-C20-01.',
       '§7 C20')
 
+claim('C03',
+      'TLA+ spec XlEval (sheet defaulting, ranges as row-major arrays, names) + XlSyntax rendering; TLC enumerates workbooks over '
+      'three sheets and probe formulas; each workbook is built both by read_and_parse_dict and as an .xlsx (own writer) and the '
+      'probe evaluated; resolve_ranges compared with the spec\'s Resolve',
+      'Exhaustive over a 3-sheet x 3x3 grid whose cells hold distinct powers of two (a sum reveals exactly which cells were read): '
+      'every target cell x 4 $ spellings x qualified/unqualified x probe sheet, as a bare reference and inside arithmetic; all 36 '
+      'rectangles x SUM/COUNTA x source/target sheets x $ spellings, dense and with all 15 sparse patterns of a 2x2 sub-block; '
+      'blank reads; cross-sheet chains where qualified and unqualified references alternate and one cell is reached twice; 1xN and '
+      'Nx1 strips (N up to 320) and a two-column block with long blank runs; columns AA..XFD; names bound to cells and to ranges, '
+      'used in formulas and as the argument of evaluate; resolve_ranges on 1920 rectangles. TLC checks the column-name bijection on '
+      '1..18278 and the rows x columns / no-duplicate shape of Resolve.',
+      COMMON_NOTE + ' Also trusted: harness/xlsxwriter_min.py, harness/syntax.py (held to the spec by Trace_Parse/Trace_Formula). '
+                    'Left open: reversed ranges, whole rows/columns, unions, names bound to formulas, evaluate(name of a range). Known finding F-C03-01.',
+      '§7 C03')
+claim('C16',
+      'TLA+ spec XlMath (decimals as digit sequences; rounding family, CEILING/FLOOR, MOD, powers, factorials exactly; domains, '
+      'reference expressions and anchor points of the elementary functions); 18 laws as TLC invariants; dump replayed on four call '
+      'paths; seeded 15-digit decimals validated by TLC (Trace_C16) with ulp distances measured against Python math under the '
+      'spec-fixed reference expression',
+      'Exact half decided by the specification alone: every sign x digit string of length <= 3 x exponent -3..2 plus tie families x '
+      'digit counts, CEILING/FLOOR over all sign combinations and significances incl. 0.1 and 0.25, MOD over all sign combinations, '
+      'integer powers, factorials. Analytic half: the spec fixes domain (outside it an Excel error value, never NaN/inf/exception), '
+      'argument binding (RefExpr, e.g. ATAN2(x,y)=atan2(y,x)) and exact anchors; the ulp distance (<= 4) is computed by the harness '
+      'with Python math and checked by the trace spec. Seeded decimals with up to 15 significant digits and exponents +-300.',
+      COMMON_NOTE + ' Also trusted for the analytic half: CPython math/libm as IEEE oracle. Left open: which error code, ties between '
+                    'doubles, FACT > 170, trig arguments >= 2^27, 0^0.',
+      '§7 C16')
+claim('C18',
+      'TLA+ spec XlDate (1900-system calendar by integer arithmetic, DATE carry, EDATE/EOMONTH, DATEDIF, YEARFRAC as exact '
+      'rationals); TLC sweeps serials (one state per serial with all calendar fields; every serial 1..2958465 in thorough) and '
+      'enumerates calls, 20 laws as invariants; dump replayed through direct calls and formulas; seeded calls validated by TLC (Trace_C18)',
+      'Quick: serials 1..1500, every 97th to 2958465, +-3 around century/leap boundaries, and ~87k enumerated calls (DATE with months '
+      '-14..27 and days -40..70, month offsets -25..25, all WEEKDAY return types, DATEDIF D/M/Y and YEARFRAC bases over ordered '
+      'pairs of sampled dates). Thorough: every whole serial. Laws on the spec: serial<->date bijection and monotonicity, weekday '
+      'advance, month lengths and leap rule, DATE(YEAR,MONTH,DAY)=id, ISO week range. Library datetimes are projected through the '
+      'harness\'s own calendar, so the library\'s serial conversion is itself under test.',
+      COMMON_NOTE + ' Left open: serial 60/0, negatives, weekdays below 61, February 1900 crossings, dates as text, DATEDIF MD/YM/YD, '
+                    '30/360 with days 29-31. Known finding F-C18-01 (time-of-day fraction, pinned by a test).',
+      '§7 C18')
+
 ALL = ['C%02d' % i for i in range(1, 21)]
 
 
